@@ -81,7 +81,7 @@ CHECKS = {
     ),
     "C10": dict(
         level="fault_enumeration",
-        required_probes=['crash_debris_rejected', 'read_error_reported', 'type_1', 'type_9'],
+        required_probes=['crash_debris_rejected', 'read_error_reported', 'type_1', 'type_9', 'parametric_round_trip'],
         parts=[dict(harness="chk_C10", variant="seq", src="checks/chk_C10.cpp",
                     runs=dict(quick=320, thorough=80000), wall_cap=dict(quick=160, thorough=2400))],
         rule=("one case = one generated image (index ranges with negative minima, sizes 1..12, origin, voxel sizes, six value "
@@ -89,7 +89,7 @@ CHECKS = {
               "classes: fault-free round trip; transparent short/EINTR I/O; data file truncated at EVERY length; write error at EVERY "
               "write call; crash (lost / torn / complete write) at EVERY write call; read error at EVERY read call; dynamic image "
               "through the Interfile container and through the Multi container (round trip + every member truncated at 64+ lengths "
-              "incl. all frame boundaries).  Per case the enumeration over fault positions is complete; cases are seeded draws.  "
+              "incl. all frame boundaries); parametric image (two parameters per voxel) through both containers likewise.  Per case the enumeration over fault positions is complete; cases are seeded draws.  "
               "Non-trivial: every case; distinct = distinct event-log hash."),
         components=dict(real=REAL_COMMON + ["InterfileOutputFileFormat, Interfile/Multi dynamic output formats, write_basic_interfile, read_from_file<>, "
                                             "interfile header reader, convert_array / find_scale_factor, read_data / write_data"],
